@@ -16,10 +16,11 @@ from inference.pdf.hdi import sample_hdi
 
 RULE = ("cases = (sample, fraction, dtype, container) drawn by Hypothesis; non-trivial = ties present, or "
         "n*fraction within 1e-9 of an integer, or 2-D input; distinct by sha1 of the canonical case")
-ASSUMPTIONS = ["integer inputs are below 2**53 so the float64 result array can hold them exactly",
+ASSUMPTIONS = ["integer inputs are numbers that the float64 result array can hold exactly: below 2**53, or multiples of 2**12 over the whole "
+               "int64 / uint64 range",
                "NaN-free samples (ordering of NaN is undefined)"]
 
-DTYPES = ["float64", "float32", "int64", "int32", "uint8", "uint32", "int8", "int16", "bool"]
+DTYPES = ["float64", "float32", "float16", "int64", "int32", "uint8", "uint32", "uint64", "int8", "int16", "bool"]
 
 
 @st.composite
@@ -28,26 +29,37 @@ def column(draw, n, dtype):
     if dtype == "bool":
         return [draw(st.booleans()) for _ in range(n)]
     if dtype.startswith("int") or dtype.startswith("uint"):
-        lim = {"int32": 2**20, "int64": 2**40, "uint8": 255, "uint32": 2**31, "int8": 127, "int16": 32767}[dtype]
+        lim = {"int32": 2**20, "int64": 2**40, "uint8": 255, "uint32": 2**31, "int8": 127, "int16": 32767, "uint64": 2**40}[dtype]
         low = 0 if dtype.startswith("uint") else -lim
+        if dtype in ("int64", "uint64") and kind in ("huge", "outlier"):
+            # the whole range of the type, in numbers a float64 holds exactly (multiples of 4096)
+            lo_k, hi_k = (-(2**51), 2**51 - 1) if dtype == "int64" else (0, 2**52 - 1)
+            if kind == "huge":
+                return [draw(st.integers(lo_k, hi_k)) * 4096 for _ in range(n)]
+            vals = [draw(st.integers(0, 1000)) for _ in range(n)]
+            for _ in range(draw(st.integers(1, 3))):
+                vals[draw(st.integers(0, n - 1))] = draw(st.sampled_from([lo_k, hi_k, hi_k // 2])) * 4096
+            return vals
         if kind in ("ties", "grid"):
             pool = draw(st.lists(st.integers(max(low, -50), 50), min_size=1, max_size=6))
             return [draw(st.sampled_from(pool)) for _ in range(n)]
         return [draw(st.integers(low, lim)) for _ in range(n)]
+    w = 16 if dtype == "float16" else 32
     if kind == "ties":
-        pool = draw(st.lists(st.floats(-1e3, 1e3, allow_nan=False, width=32), min_size=1, max_size=6))
+        pool = draw(st.lists(st.floats(-1e3, 1e3, allow_nan=False, width=w), min_size=1, max_size=6))
         return [draw(st.sampled_from(pool)) for _ in range(n)]
     if kind == "grid":
         return [float(draw(st.integers(-20, 20))) * 0.5 for _ in range(n)]
     if kind == "smooth":
-        return [draw(st.floats(-10, 10, allow_nan=False, width=32)) for _ in range(n)]
+        return [draw(st.floats(-10, 10, allow_nan=False, width=w)) for _ in range(n)]
     if kind == "outlier":
-        vals = [draw(st.floats(-1, 1, allow_nan=False, width=32)) for _ in range(n)]
+        vals = [draw(st.floats(-1, 1, allow_nan=False, width=w)) for _ in range(n)]
         for _ in range(draw(st.integers(1, 3))):
-            vals[draw(st.integers(0, n - 1))] = draw(st.sampled_from([1e6, -1e6, 1e30, -1e30]))
+            vals[draw(st.integers(0, n - 1))] = draw(st.sampled_from([1e4, -6e4] if dtype == "float16" else [1e6, -1e6, 1e30, -1e30]))
         return vals
-    top = 1e30 if dtype == "float32" else 1e300
-    return [draw(st.sampled_from([top, -top, 0.0, 1.0, -1.0, top / 2])) for _ in range(n)]
+    # values near the ends of the type's range (their differences overflow in the type itself)
+    top = {"float16": 60000.0, "float32": 3e38}.get(dtype, 1e300)
+    return [draw(st.sampled_from([top, -top, 0.0, 1.0, -1.0, top / 2, -top / 3, top / 4])) for _ in range(n)]
 
 
 @st.composite
@@ -131,9 +143,14 @@ def brute_check(col, lo, hi, f, label):
     left = np.searchsorted(s, s, side="left")
     right = np.searchsorted(s, s, side="right")
     cnt = right[None, :] - left[:, None]  # points in [s_i, s_j]
-    # widths of integer samples are exact integers (computed here in int64, whatever the storage type of the sample); widths of
-    # floating-point samples are the rounded differences in the sample's own precision
-    sw = s.astype(np.int64) if s.dtype.kind in "iub" else s
+    # widths of integer samples are exact integers (Python integers for the 64-bit types, whose differences do not fit in them;
+    # int64 otherwise); widths of floating-point samples are differences of the same numbers in double precision - never in a
+    # narrower type of the sample's own, where they overflow or round (an earlier version of this oracle did that, as the
+    # implementation did)
+    if s.dtype.kind in "iub":
+        sw = s.astype(object) if s.dtype.itemsize == 8 else s.astype(np.int64)
+    else:
+        sw = s.astype(np.float64)
     with np.errstate(over="ignore", invalid="ignore"):
         wid = sw[None, :] - sw[:, None]
         ilo = int(np.argmax(s64 == lo))
@@ -225,7 +242,10 @@ def body_meta(case, ctx):
         b64 = np.asarray(call(a64, f), dtype=float).reshape(2, -1)
         w_got = got[1] - got[0]
         w_exp = ga * (b64[1] - b64[0])
-        scale = np.max(np.abs(mapped), axis=0) if mapped.ndim == 2 else np.max(np.abs(mapped))
+        # the mapped sample itself carries the rounding of a*x (at the size of a*x, which may be far larger than a*x + b) and of
+        # the sum: the widths agree to that, not to the size of the mapped values alone
+        prod = np.abs(a64 * ga)
+        scale = (np.max(prod, axis=0) if mapped.ndim == 2 else np.max(prod)) + abs(gb)
         tol = 8 * np.finfo(float).eps * (np.abs(scale) + np.abs(w_exp))
         err = np.max(np.abs(w_got - w_exp) - tol)
         ctx.ratio("affine-width", np.max(np.abs(w_got - w_exp) / np.maximum(tol, 1e-300)), 1.0)
